@@ -9,7 +9,7 @@ PROP = {
              # created is released exactly once (direct oracle)
              {"tag": "c04macros", "bin": "c04", "features": ["forms"], "args": ["--macros"], "model": False}],
     "mismatch_is_failing": True,
-    "rule": "every operation (map x4 receiver forms, zip x9 stack forms + Box x Box, fold x4, generate x4 (stack, boxed, through &S / &mut S), GenericArray::clone, Default, and GenericArrayIter::clone / fold / rfold from every (front, back) position) x N in 0..=5 and 33 (thorough 0..=8, 16, 33) x an injected panic at every call index (and none); generate also with zero-sized drop-counted elements (live count must return to 0); source-iterator panics are covered by the C07 run. Element kinds: Tr, Tz (form 0, ops 0-2), plain u32 / P3 (12 bytes, align 4) / H2 (u16) without drop glue, Cn (observable Clone, no drop glue; no injected panic); run c04macros: box_arr![x; N] with a Clone that panics at every call index. distinct = distinct CASE lines; non-trivial = a panic is injected (fifth integer >= 0)",
+    "rule": "every operation (map x4 receiver forms, zip x9 stack forms + Box x Box, fold x4, generate x4 (stack, boxed, through &S / &mut S), GenericArray::clone, Default, and GenericArrayIter::clone / fold / rfold from every (front, back) position) x N in 0..=5 and 33 (thorough 0..=8, 16, 33) x an injected panic at every call index (and none); generate also with zero-sized drop-counted elements (live count must return to 0); source-iterator panics are covered by the C07 run. Element kinds: Tr, Tz (form 0, ops 0-2), plain u32 / P3 (12 bytes, align 4) / H2 (u16) without drop glue, Cn (observable Clone, no drop glue; no injected panic); run c04macros: box_arr![x; N] with a Clone that panics at every call index. Default also as default_boxed() with a panic at every call index. distinct = distinct CASE lines; non-trivial = a panic is injected (fifth integer >= 0)",
     "nontrivial": lambda case, obs: int(case.split()[4]) >= 0,
     "manifest": {
         "design_ref": "DESIGN.md section 7, C04",
